@@ -809,13 +809,15 @@ class Arbiter(object):
         if inside_circusd:
             self._restarting = True
             logger.info('Arbiter exiting')
+            was_stopping = self._stopping
             self._stopping = True
             try:
                 yield self._stop_watchers(close_output_streams=True)
             except Exception:
-                # the restart failed, the daemon goes on serving
+                # the restart failed, the daemon goes on serving (unless a
+                # shutdown was under way already)
                 self._restarting = False
-                self._stopping = False
+                self._stopping = was_stopping
                 raise
             if self._provided_loop:
                 cb = self.stop_controller_and_close_sockets
